@@ -64,14 +64,19 @@ def rule_objkey(ctx, f):
         l = arg_local(t, 0)
         names = {last_seg(a[1]) for a in fl.origins(l) if a[0] == "call"} if l is not None else set()
         consts = set()
+        plus5 = False
         for a in fl.origins(l) if l is not None else []:
             if a[0] == "call" and last_seg(a[1]) == "min":
                 for x in a[3]["args"]:
                     c = F.const_int(x)
                     if c is not None:
                         consts.add(c)
+                    elif F.op_local(x) is not None:
+                        # the other operand is n + 5
+                        plus5 = plus5 or any(y[0] == "binop" and y[1].startswith("Add") and 5 in (F.const_int(y[3][2]), F.const_int(y[3][3]))
+                                             for y in fl.origins(F.op_local(x), passthrough=()))
         which = "Rc4" if "Rc4" in F.callee_name(t) else "Aes128"
-        ctx.check("min" in names and 16 in consts, "C06-TABLE-objkey", "crypt::Decoder::decrypt#%s" % which,
+        ctx.check("min" in names and 16 in consts and plus5, "C06-TABLE-objkey", "crypt::Decoder::decrypt#%s" % which,
                   "the %s object key is not the digest cut to min(n + 5, 16) bytes (origins: %s, constants: %s): documents with file keys shorter than 88 bits "
                   "decrypt to garbage" % (which, sorted(names), sorted(consts)), t["span"], detail="&digest[..(n + 5).min(16)]")
 
@@ -156,6 +161,67 @@ def rule_salts(ctx, f):
                   "but the file key that comes out is wrong" % ("owner" if owner_salt else "user", wrapped[0].upper()), b["blocks"][i]["term"].get("span", b["span"]),
                   detail="%s key salt <-> /%s" % ("owner" if owner_salt else "user", wrapped[0].upper()))
     ctx.floor("C06-SIB-salts", pairs, 4, "(intermediate key, wrapped key) pairs of revisions 5 and 6")
+
+    # what a computed hash is compared WITH: the hash made with the validation salt of /O is compared with the first 32 bytes of /O, the one made
+    # with the salt of /U with those of /U
+    def slices(l, depth=0):
+        """{((start, end), entry)}: constant sub-slices of /U or /O that flow into the value, through hashers and the revision-6 kdf"""
+        out = set()
+        if l is None or depth > 3:
+            return out
+        atoms = fl.origins(l)
+        # where the value can be pinned down to ONE slicing (through tuples and `?`), only that one counts
+        rc = fl.root_call([l])
+        if rc is not None and last_seg(F.callee_name(rc[1])) == "index":
+            atoms = [("call", F.callee_name(rc[1]), rc[0], rc[1])]
+        for a in atoms:
+            if a[0] != "call":
+                continue
+            seg = last_seg(a[1])
+            if seg == "index" and len(a[3]["args"]) == 2:
+                rl = F.op_local(a[3]["args"][1])
+                rng = None
+                for x in fl.origins(rl, passthrough=()) if rl is not None else []:
+                    if x[0] == "agg":
+                        cs = [F.const_int(o) for o in x[3][2]]
+                        if len(cs) == 2 and None not in cs:
+                            rng = tuple(cs)
+                fs = set()
+                bl = F.op_local(a[3]["args"][0])
+                if bl is not None:
+                    fl.origins(bl, fields=fs)
+                for ent in fs & {"u", "o"}:
+                    if rng is not None:
+                        out.add((rng, ent))
+            if seg == "revision_6_kdf":
+                for arg in a[3]["args"][1:2]:
+                    out |= slices(F.op_local(arg), depth + 1)
+            if seg in ("finalize", "finalize_reset"):
+                hl = F.op_local(a[3]["args"][0])
+                hroots = {x[2] for x in fl.origins(hl) if x[0] == "call" and last_seg(x[1]) == "new"} if hl is not None else set()
+                for ubi, ut in F.calls(b):
+                    if last_seg(F.callee_name(ut)) in ("update", "chain_update") and len(ut["args"]) >= 2:
+                        rl2 = F.op_local(ut["args"][0])
+                        rroots = {x[2] for x in fl.origins(rl2) if x[0] == "call" and last_seg(x[1]) == "new"} if rl2 is not None else set()
+                        if rroots & hroots:
+                            out |= slices(F.op_local(ut["args"][1]), depth + 1)
+        return out
+    ncmp = 0
+    for bi, t in F.calls(b):
+        if not (t.get("dest") and b["locals"][t["dest"][0]]["s"] == "bool" and last_seg(F.callee_name(t)) in ("eq", "ne") and len(t["args"]) == 2 and
+                "u8" in (t.get("callee_full", "") + t.get("resolved_full", ""))):
+            continue
+        sa, sb_ = slices(arg_local(t, 0)), slices(arg_local(t, 1))
+        for comp, stored in ((sa, sb_), (sb_, sa)):
+            salt_e = {e for r, e in comp if r == (32, 40)}
+            hash_e = {e for r, e in stored if r == (0, 32)}
+            if salt_e and hash_e and not {e for r, e in stored if r == (32, 40)}:
+                ncmp += 1
+                ctx.check(len(salt_e) == 1 and salt_e == hash_e, "C06-SIB-salts", "from_password#hash-compared@%d" % ncmp, "a hash computed with the validation salt of /%s is "
+                          "compared with the hash stored in /%s: the right password of one kind is refused" % ("/".join(sorted(x.upper() for x in salt_e)), "/".join(sorted(x.upper() for x in hash_e))),
+                          t["span"], detail="hash(.., /%s[32..40]) == /%s[0..32]" % ("".join(sorted(salt_e)).upper(), "".join(sorted(hash_e)).upper()))
+                break
+    ctx.floor("C06-SIB-salts", ncmp, 4, "comparisons of a computed hash with the stored one (user and owner, revisions 5 and 6)")
 
 
 def rule_order(ctx, f):
@@ -405,6 +471,28 @@ def rule_identity(ctx, f):
                 ctx.check("decrypt" in names, "C06-PROV", "_parse_with_lexer_ctx#string-%d-decrypted" % ns, "a string form is built without passing through Context::decrypt: "
                           "such strings of an encrypted document come back as ciphertext", pp["blocks"][i]["term"].get("span", pp["span"]), detail="string = ctx.decrypt(string)")
         ctx.floor("C06-PROV", ns, 2, "Primitive::String constructions in the object parser (literal and hexadecimal)")
+        # nested values (array elements, dictionary values, the dictionary of a stream) are parsed with the very same context: strings inside
+        # them are encrypted like any other
+        nrec = 0
+        for pb in [x for x in f.bodies.values() if x.get("_file") == pp.get("_file") and x["kind"] != "Closure"]:
+          cpar = [k for k in range(1, pb["argc"] + 1) if "parser::Context" in pb["locals"][k]["s"] and pb["locals"][k]["s"].startswith("std::option::Option<")]
+          if not cpar:
+              continue
+          pfl = Flow(pb)
+          for bi, t in F.calls(pb):
+              cb = f.bodies.get(t.get("resolved") or "") if t.get("resolved_local") else None
+              if cb is None or cb["kind"] == "Closure":
+                  continue
+              cpos = [k for k in range(1, cb["argc"] + 1) if "parser::Context" in cb["locals"][k]["s"] and cb["locals"][k]["s"].startswith("std::option::Option<")]
+              for k in cpos:
+                  nrec += 1
+                  l = arg_local(t, k - 1)
+                  ok = bool(cpar) and l is not None and any(pfl.derives_from_arg(l, c0, passthrough=()) for c0 in cpar) and \
+                      not any(a[0] == "agg" for a in pfl.origins(l, passthrough=()))
+                  ctx.check(ok, "C06-PROV", "%s#ctx-handed-down@%d" % (pb["id"], nrec), "a nested value is parsed without the decryption context of the enclosing object (the "
+                            "argument is not the function's own context parameter): strings inside arrays / dictionaries of an encrypted document come back as ciphertext",
+                            t["span"], detail="%s(.., ctx, ..)" % last_seg(F.callee_name(t)))
+        ctx.floor("C06-PROV", nrec, 3, "nested parses in the object parser (array elements, dictionary values, stream dictionaries)")
     n = 0
     for nm in ("parser::parse_object::parse_indirect_object", "parser::parse_object::parse_indirect_stream"):
         b = f.body(nm)
